@@ -1,13 +1,25 @@
 """C10 — running server = restart from its disk: layout round-trip theorems + R-cache + twin-server comparison."""
-import seqprops
+import json
+import seqprops, crashengine
 TRUSTED = ['hand transcription of inode/dirent/handle layouts (Model/Layout.v), tied on every cached inode (bytes = server Encode(), re-encoding reproduces them)',
            'twin comparison walks both servers through the public NFS procedures only']
 ASSUMPTIONS = ['quiescent points: no RPC in flight, shrinker idle, unstable data committed before the comparison']
 
 
 def run(ctx, ps, gen_bad):
-    return seqprops.run(ctx, 'C10', ps, gen_bad)
+    fails, cov = seqprops.run(ctx, 'C10', ps, gen_bad)
+    # a server recovered from a crash image taken inside a background free keeps serving: what it answers and what it
+    # leaves on disk must be what the reference says (the first object it creates may draw a half-freed inode number)
+    n = 20 if ctx.quick else 300
+    wl = [('bigshrink', 0, 3000, True, n, ctx.seed * 4 + 1), ('bigshrink', 0, 3000, True, n, ctx.seed * 4 + 3)]
+    f2, c2 = crashengine.run(ctx, 'C10', wl, own=r"suffix-|post-suffix|alloc-after-recovery")
+    fails += f2
+    cov['crash_images_with_post_recovery_calls'] = c2['evaluations']
+    cov['evaluations'] += c2['evaluations']
+    return fails, cov
 
 
 def replay(ctx, path):
+    if 'budget' in json.load(open(path)):
+        return crashengine.replay(ctx, path)
     return seqprops.replay(ctx, path)
